@@ -502,9 +502,11 @@ impl UnixStr {
             next_slash_back += 1;
         }
         unsafe {
-            Some(UnixString(
-                self.0.get_unchecked(..=next_slash_back).to_vec(),
-            ))
+            // Copy up to, not including, the separator (or the byte after a root separator),
+            // then terminate
+            let mut parent = self.0.get_unchecked(..next_slash_back).to_vec();
+            parent.push(NULL_BYTE);
+            Some(UnixString(parent))
         }
     }
 }
